@@ -98,6 +98,24 @@ fn changed_classes(before: &[String], after: &[String]) -> String {
             if d > 0 { e.0 += d } else { e.1 -= d }
         }
     }
+    // node (N) and handle (H) lines carry the local file set in the field f=[..]: when the lines of a class differ ONLY in that
+    // field the class is reported as Nf / Hf (membership only); a difference in name, attributes, content or comment stays N / H
+    let strip = |l: &String| -> String { l.split(' ').filter(|w| !w.starts_with("f=[") && !w.starts_with("fm=") && !w.starts_with("minver=")).collect::<Vec<_>>().join(" ") };
+    for c in ["N", "H"] {
+        if cnt.contains_key(c) {
+            let mut b2: HashMap<String, i64> = HashMap::new();
+            for l in before.iter().filter(|l| l.split_whitespace().next() == Some(c)) {
+                *b2.entry(strip(l)).or_insert(0) += 1;
+            }
+            for l in after.iter().filter(|l| l.split_whitespace().next() == Some(c)) {
+                *b2.entry(strip(l)).or_insert(0) -= 1;
+            }
+            if b2.values().all(|d| *d == 0) {
+                let v = cnt.remove(c).unwrap();
+                cnt.insert(format!("{}f", c), v);
+            }
+        }
+    }
     cnt.iter().map(|(c, (a, b))| format!("{}-{}+{}", c, a, b)).collect::<Vec<_>>().join(",")
 }
 
